@@ -99,6 +99,12 @@ def _cases(ctx):
     extra_a = ['a\n', '# h\n', 'h\n===\n', '***\n', '> q\n', '| a |\n|---|\n| b |\n', '> ```\n> x = 1   \n', '> - a\n', 'a\nb\n', '> q\nlazy\n']
     extra_b = ['b\n', '    code\n', '- x\n  - y\n', '> - | a |\n>   |---|\n>   | b |\n', '1. | h |\n   |---|\n   | r |\n', '```\nx\n```\n',
                '<div>\nx\n</div>\n', '===\n', '# h ##\n', '  \n  text\n', '- a\n\n  b\n\n      c\n', '> > deep\n> > er\n', 'p\n---\n']
+    # A: one text per kind of closing block and per kind of line that a document-wide scan could remember (thematic break,
+    # setext underline, table delimiter row); B: every block that can INTERRUPT a paragraph, inside each kind of container
+    extra_a += ['intro\n\n---\n', 'T\n-----\n', 'T\n=\n', '| a | b |\n|---|---|\n', '> | a |\n> |---|\n', '***\n', '# h #\n', 'a\n\n\n']
+    extra_b += ['> text\n> | h1 | h2 |\n> | -- | -- |\n> | c1 | c2 |\n', '- p\n  | a |\n  |---|\n  | b |\n', '> - p\n>   | a | b |\n>   |--|--|\n',
+                '> p\n> # h\n', '> p\n> ```\n> x\n> ```\n', '> p\n> - i\n', '> p\n> ***\n', '- p\n  > q\n', '- p\n  # h\n', '1. p\n   ```\n   x\n   ```\n',
+                'p\n| a |\n|---|\n', 'p\n# h\n', 'p\n> q\n', 'p\n<div>\n', '> p\n> <div>\n', 'p\n- i\n']
     cases = []
     for _ in range(ctx.budget(9000, 60000)):
         cases.append({'A': rng.choice(texts + extra_a * 20), 'B': rng.choice(texts + extra_b * 20)})
